@@ -198,5 +198,45 @@ Proof.
   apply (in_map (fun v => nth i v None)). exact Hin.
 Qed.
 
+(* adding one more result vector never makes the roll-up better at any position *)
+Lemma has_cons_mono p c col : has p col = true -> has p (c :: col) = true.
+Proof. unfold has. simpl. intros ->. apply orb_true_r. Qed.
+
+Lemma compare_pt_cons_mono c col : (prio (compare_pt col) <= prio (compare_pt (c :: col)))%nat.
+Proof.
+  destruct (compare_pt_attained col) as [Hin | [Hm _]].
+  - apply compare_pt_upper. right. exact Hin.
+  - rewrite Hm. simpl. lia.
+Qed.
+
+Lemma rollup_monotone n v vs i :
+  (i < n)%nat ->
+  (prio (nth i (rollup n vs) MISSING) <= prio (nth i (rollup n (v :: vs)) MISSING))%nat.
+Proof.
+  intros Hi. unfold rollup. rewrite !nth_tab by exact Hi. unfold column. simpl.
+  apply compare_pt_cons_mono.
+Qed.
+
+(* a single flag is its own roll-up; hence a single flag vector is returned unchanged and
+   rolling up a roll-up changes nothing *)
+Lemma compare_pt_single f : compare_pt [Some (code f)] = f.
+Proof. destruct f; reflexivity. Qed.
+
+Lemma rollup_single n fl : length fl = n -> rollup n [lift fl] = fl.
+Proof.
+  intros Hn. subst n. unfold rollup.
+  transitivity (tab (length fl) (fun i => nth i fl MISSING)); [|apply tab_nth_self].
+  apply tab_ext. intros i Hi.
+  unfold column, lift. simpl.
+  rewrite (nth_indep _ None (Some (code MISSING))) by (rewrite map_length; exact Hi).
+  rewrite (map_nth (fun f => Some (code f))). apply compare_pt_single.
+Qed.
+
+Lemma rollup_length n vs : length (rollup n vs) = n.
+Proof. apply tab_length. Qed.
+
+Lemma rollup_idem n vs : rollup n [lift (rollup n vs)] = rollup n vs.
+Proof. apply rollup_single, rollup_length. Qed.
+
 Lemma flag_codes_agree : Forall (fun p => code (fst p) = snd p) flag_codes.
 Proof. repeat constructor. Qed.
